@@ -215,7 +215,7 @@ async fn mix(role: Role, seed: u64, rep: &mut Report) {
 
 pub fn run(args: &Args) -> Report {
     let mut rep = Report::new();
-    let n: u64 = if args.thorough { 600 } else { 40 };
+    let n: u64 = if args.thorough { 1500 } else { 150 };
     for (gi, multi) in [true, false].into_iter().enumerate() {
         let rt = crate::runtime(multi, 4);
         rt.block_on(async {
